@@ -80,6 +80,7 @@ type Env struct {
 	servers []*Server
 	clients []*Client
 	Counter int64
+	invs    []inv
 	Notes   []string
 }
 
@@ -106,6 +107,26 @@ func (e *Env) Violate(oracle, format string, a ...interface{}) {
 	}
 }
 
+// Invariant registers a check evaluated by the scheduler at every quiescent
+// point. A non-empty result is a violation and ends the run at once.
+func (e *Env) Invariant(oracle string, f func() string) {
+	e.invs = append(e.invs, inv{oracle, f})
+	e.S.OnStep = func(s *simrt.Sched) {
+		for _, i := range e.invs {
+			if d := i.f(); d != "" {
+				e.Violate(i.oracle, "%s", d)
+				s.Aborted = "violation: invariant " + i.oracle
+				return
+			}
+		}
+	}
+}
+
+type inv struct {
+	oracle string
+	f      func() string
+}
+
 func (e *Env) Violations() []Violation {
 	e.mu.Lock()
 	defer e.mu.Unlock()
@@ -122,14 +143,17 @@ func (e *Env) Probe(name string) {
 
 // Tok is the plan and the observed fate of one call, identified by a unique token.
 type Tok struct {
-	ID    int
-	Kind  string // plain | retry | notify | ctx | add | sub | rev | reader
-	Size  int    // result padding
-	Err   bool   // handler returns the error E<tok>
-	Panic string // handler panics with this payload kind
-	Delta int64  // add
-	N     int    // stream length
-	Hold  bool   // handler parks until the scheduler releases it
+	ID               int
+	Kind             string // plain | retry | notify | ctx | add | sub | rev | reader
+	Size             int    // result padding
+	Err              bool   // handler returns the error E<tok>
+	Panic            string // handler panics with this payload kind
+	Delta            int64  // add
+	N                int    // stream length
+	Hold             bool   // handler parks until the scheduler releases it
+	SleepNs          int64  // handler takes this much fake time
+	GapNs            int64  // sub: producer pause between values
+	InvokeT, ReturnT time.Duration
 
 	mu        sync.Mutex
 	Execs     int
